@@ -54,7 +54,7 @@ static int last_in_sock, last_out_sock, last_relay;
 
 static struct {
 	uint64_t cases, pumps, calls, bytes, full_states, eof_with_data, errors_injected, destroyed_midway, band_checks, eagain_out,
-		 ret1, ret0, retm1, stalls, relay_eof, max_buffered, spurious_calls, window_feeds;
+		 ret1, ret0, retm1, stalls, relay_eof, max_buffered, spurious_calls, window_feeds, small_out_buffers;
 } S;
 
 static inline uint8_t code(const struct px *p, long pos) { return (uint8_t)(pos * 131 + (pos >> 8) * 7 + p->salt); }
@@ -143,6 +143,15 @@ static struct px *px_new(void)
 	if (p->sock_out) { if (socketpair(AF_UNIX, SOCK_STREAM, 0, b) < 0) _exit(2); p->out_w = b[0]; p->out_r = b[1]; }
 	else { if (__real_pipe(b) < 0) _exit(2); p->out_r = b[0]; p->out_w = b[1]; }
 	set_nb(p->in_r); set_nb(p->in_w); set_nb(p->out_r); set_nb(p->out_w);
+	if (p->sock_out && rng_pct(&R, 60)) {
+		/* a small socket buffer on the output: writes are accepted in part, so bytes stay behind in the pump's buffer and the next
+		 * read tops it up with less than a full buffer */
+		int sz = 2048 + (int)rng_n(&R, 6000);
+		setsockopt(p->out_w, SOL_SOCKET, SO_SNDBUF, &sz, sizeof(sz));
+		sz = 2048 + (int)rng_n(&R, 3000);
+		setsockopt(p->out_r, SOL_SOCKET, SO_RCVBUF, &sz, sizeof(sz));
+		S.small_out_buffers++;
+	}
 	switch (rng_n(&R, 6)) {
 	case 0: p->total = 0; break;
 	case 1: p->total = 1 + rng_n(&R, 100); break;
